@@ -472,6 +472,16 @@ func init() {
 				{Src: "tree", Dst: "/opt/tree644", Type: "tree", Mode: 0o644},
 				{Src: "tree", Dst: "/opt/tree600", Type: "tree", Mode: 0o600, Owner: "app"},
 				{Src: "tree/sub", Dst: "/opt/tree640", Type: "tree", Mode: 0o640},
+				// the special mode bits as they are on disk (no declared mode): through a tree, a directory, a glob, a file
+				{Src: "modes", Dst: "/opt/modes", Type: "tree"},
+				{Src: "modes/", Dst: "/opt/modes-dir"},
+				{Src: "modes/*-file", Dst: "/opt/modes-glob"},
+				{Src: "modes/sticky-file", Dst: "/opt/one-sticky-file"},
+				{Src: "modes/all-file", Dst: "/etc/all-bits.conf", Type: "config"},
+				{Src: "modes/sticky-dir", Dst: "/var/tmp/app", Type: "tree"},
+				// an entry that opts into expansion and names a directory as destination (trailing slash)
+				{Src: "bin/app", Dst: "/usr/libexec/app/", Expand: true},
+				{Src: "etc/conf.d/*.conf", Dst: "/etc/expanded.d/", Expand: true, Type: "config"},
 				// paths written with a blank at the end (expand off: shipped as written), a source named with blanks
 				{Src: "share/ww.txt", Dst: "/opt/blank-end "},
 				{Dst: "/var/lib/blank-dir ", Type: "dir"},
